@@ -255,6 +255,26 @@ def run(rep, facts, tier):
             rep.add('C15.R2', 'C15.R2:%s~%s' % (short(ev), short(co)), ok,
                     'both are %s with mode Eval resp. Compile' % short(modes[ev][0]) if ok else 'eval/compile do not share one build entry: %s vs %s' % (modes[ev], modes[co]),
                     ev, fx.fns[ev].j['span'])
+    # eval = compile + run also when something was compiled before and has not run yet: the context eval opens starts at the
+    # pending instruction (run() would execute it first), not at the end of the code
+    co = fx.need('state::State::context_open')
+    from ..rules.c11 import guards_of as _g11
+    pend = False
+    for bb in co.reachable_blocks():
+        for st in co.blocks[bb]['stmts']:
+            if st['k'] != 'assign' or not any(isinstance(x, dict) and x.get('f') == 'ip' for x in st['lhs']['p']):
+                continue
+            v = expr_str(co.expr_of_rvalue(st['rv'], 0, frozenset()), -12)
+            if 'ctx.ip' not in v:
+                continue
+            for (_, e, side) in _g11(co, bb):
+                se = expr_str(e, -12)
+                if side and se.startswith('Lt(') and 'ctx.ip' in se and 'code' in se:
+                    pend = True
+    rep.add('C15.R2', 'C15.R2:context_open:pending-code-runs-first', pend,
+            'an Eval context opened while compiled code is pending (ctx.ip < code.len()) starts at that ip' if pend else
+            'context_open starts every Eval context at the end of the code: `compile("1 2 3")` then `eval("4")` leaves only 4 - the pending '
+            'program is skipped, where compile + run executes it', co.name, co.j['span'])
     # who compares ctx.mode with Eval / Compile
     n_cmp = 0
     for fn in sorted(fx.fns):
